@@ -26,6 +26,20 @@ def notes_truth(src: gen.ChartSrc):
     return out
 
 
+def far_cases(rng, p):
+    """well-formed tracks at ticks and with lengths no double holds exactly (2^53 and beyond), adjacent ticks included"""
+    out = []
+    for base in (2**53, 2**53 + 2**20 + 1, 2**32 - 2, 10**12 + 1):
+        src = gen.rand_src(rng, p)
+        src.res, src.meta["resolution"] = 192, 192
+        src.tempo, src.tss, src.anchors, src.gevents, src.unknown = [(0, 120000)], [(0, 4, None)], [], [], []
+        big = 2**53 + 1 if base >= 2**53 else 0
+        groups = [gen.NoteGroup(base, {0: 0}), gen.NoteGroup(base + 1, {1: big}), gen.NoteGroup(base + 2, {2: big, 3: 2**53 if big else 5}), gen.NoteGroup(base + 3, {4: 0})]
+        src.tracks = [gen.TrackSrc(0, 3, groups, [(base + 1, 2), (base + 3, big or 1)], [(base + 2, "solo")])]
+        out.append((src, gen.render(src, rng, p, garbage=False)))
+    return out
+
+
 def run(ctx, out, cases, project, truth_project, label, nontrivial):
     """cases: list of (src, Rendered). project(notes list of one track) / truth_project(truth list) must be comparable."""
     a, b = common.run_charts([(R.text, None) for _, R in cases])
